@@ -17,7 +17,7 @@ BOUNDS = ("seek-back wrapper: the real CachingStreamWrapper over a non-seekable 
           "reachable, histories of N = 3 (quick) / 4 (thorough) symbolic operations from {read(n), peek(n), set mark at current position, seek back to mark + d, tell}, arguments "
           "0..6, compared with a reference cursor over the same bytes (positions compared relative to the last mark); the same over a non-blocking raw stream of 10 octets (symbolic arrival, arguments -1/0/1/2/4/11: everything / beyond the end); decode across kinds: SEQUENCE OF OCTET STRING with 0..3 "
           "elements of 0..6 octets (definite and indefinite), nested SEQUENCE, plain OCTET STRING of 0..20 octets, straddling multiples of the scaled buffer size, through bytes, "
-          "io.BytesIO, OCTET STRING value, ANY value, seekable double, non-seekable double behind the wrapper: same value, remainder (2 trailing octets) and error class" % BUF)
+          "io.BytesIO, OCTET STRING value, ANY value, seekable double, non-seekable double behind the wrapper, seekable double whose peek() hands out fewer octets than asked (as buffered file readers may): same value, remainder (2 trailing octets) and error class" % BUF)
 OUTSIDE = "real files, gzip and zipfile readers (OS/zlib I/O is C code; their dispatch in asSeekableStream - seekable or wrapped - is what the doubles exercise); the real 8192-octet buffer size"
 ASSUMPTIONS = ["io.DEFAULT_BUFFER_SIZE as seen by pyasn1.codec.streaming is replaced by %d during the harness, in symbolic exploration and in concrete replay alike (it is an environment constant)" % BUF]
 
@@ -201,6 +201,42 @@ NEST = T("SEQ", comps=[("l", SOF, "req", None), ("i", T("INT"), "req", None)])
 OCT = T("OCTS")
 
 
+class _Peeky(object):
+    """Seekable stream that also offers peek(), like io.BufferedReader / gzip readers: peek(n) may hand out fewer octets than asked for
+    (here: at most one), which the io documentation explicitly allows."""
+
+    def __init__(self, data):
+        self._d, self._p = data, 0
+
+    def seekable(self):
+        return True
+
+    def readable(self):
+        return True
+
+    def tell(self):
+        return self._p
+
+    def seek(self, n, whence=0):
+        if whence == 0:
+            self._p = n
+        elif whence == 1:
+            self._p += n
+        else:
+            self._p = len(self._d) + n
+        return self._p
+
+    def read(self, n=-1):
+        if n is None or n < 0:
+            n = len(self._d) - self._p
+        r = self._d[self._p:self._p + n]
+        self._p += len(r)
+        return r
+
+    def peek(self, n=0):
+        return self._d[self._p:self._p + 1]
+
+
 def _decode_kind(kind, data, spec):
     if kind == 0:
         sub = bytes(data)
@@ -212,6 +248,8 @@ def _decode_kind(kind, data, spec):
         sub = univ.Any(bytes(data))
     elif kind == 4:
         sub = vs.ArrivalStream(bytes(data), [len(data)], eof_with_last=True, seekable=True)
+    elif kind == 6:
+        sub = _Peeky(bytes(data))
     else:
         sub = _Raw(bytes(data))
     try:
@@ -270,7 +308,7 @@ OBLIGATIONS = [
     Obl("wrapper_long", wrapper_long, {"r0": I(0, 3), "r1": I(5, 10), "r2": I(0, 4), "b0": I(0, 4), "b1": I(0, 6)},
         shards=[{"r0": C(a)} for a in range(4)], budget=120,
         doc="two marks with reads straddling the (scaled) buffer size, then a backward seek and a read"),
-    Obl("across_kinds", across_kinds, {"shape": I(0, 2), "k": I(0, 3), "l0": I(0, 6), "l1": I(0, 6), "l2": I(0, 6), "defMode": B, "cut": I(0, 2), "kind": I(1, 5)},
-        shards=[{"shape": C(s), "kind": C(kd)} for s in range(3) for kd in range(1, 6)], budget=120,
+    Obl("across_kinds", across_kinds, {"shape": I(0, 2), "k": I(0, 3), "l0": I(0, 6), "l1": I(0, 6), "l2": I(0, 6), "defMode": B, "cut": I(0, 2), "kind": I(1, 6)},
+        shards=[{"shape": C(s), "kind": C(kd)} for s in range(3) for kd in range(1, 7)], budget=120,
         doc="same octets as bytes vs BytesIO / OCTET STRING / ANY / seekable double / non-seekable double"),
 ]
